@@ -559,6 +559,16 @@ func TestVerifC16(t *testing.T) {
 		}
 	}
 	if !vthorough() {
+		// files whose shipped text is NOT what the archive stores (text after the end of the license is
+		// trimmed before archiving): they never take the exact-text shortcut, so they are the ones that
+		// depend on the candidate selection and the full diff of nearestMatch, whatever their size
+		for _, f := range all {
+			if full := string(vread(f)); vnormalize(full) != vnormalize(licenseclassifier.TrimExtraneousTrailingText(full)) {
+				for _, v := range []string{"plain", "upper"} {
+					jobs = append(jobs, job{f, v})
+				}
+			}
+		}
 		// short texts and headers whose telling words stand on the first line, under every line-comment
 		// marker: a line lost or mangled at the top of the input costs them their name
 		for _, f := range []string{"AFL-2.1.header.txt", "MPL-2.0.header.txt", "Beerware.txt", "APSL-1.1.header.txt", "BSD-2-Clause-NetBSD.txt", "MPL-2.0-no-copyleft-exception.header.txt"} {
